@@ -5,7 +5,8 @@ ID="$1"
 TIER="${2:-${VERIF_TIER:-quick}}"
 export CARGO_NET_OFFLINE=true
 export RUST_BACKTRACE=0
-HERE=/verif
+HERE="$(cd "$(dirname "${BASH_SOURCE[0]}")" && pwd)"
+export VERIF_ROOT="$HERE"
 mkdir -p "$HERE/work" "$HERE/evidence"
 cd "$HERE/harness" || exit 2
 LOG="$HERE/work/build-$ID-$$.log"
